@@ -299,6 +299,48 @@ func TestVerifP2cHistories(t *testing.T) {
 	}
 }
 
+// Sustained traffic on a narrow alphabet, searched deeper: picks, successful completions and
+// 600 ms steps only, so that histories in which one connection is both the more loaded
+// and the one not picked for over a second are reached (the forced pick must take it).
+func TestVerifP2cForcedPick(t *testing.T) {
+	defer vrt.WriteReport()
+	logx.Disable()
+	for _, n := range []int{2, 3} {
+		if !vrt.Shard(40 + n) {
+			continue
+		}
+		var ops []string
+		depth := 8
+		if n == 2 {
+			ops = []string{"pick", "done:c0:ok", "done:c1:ok", "t600"}
+		} else {
+			depth = 6
+			for a := 0; a < n; a++ {
+				for b := 0; b < n-1; b++ {
+					ops = append(ops, fmt.Sprintf("pick:%d:%d", a, b))
+				}
+			}
+			ops = append(ops, "done:c0:ok", "done:c1:ok", "done:c2:ok", "t600")
+		}
+		if vrt.Thorough() {
+			depth += 2
+		}
+		n := n
+		vrt.BFS(vrt.Options{Name: fmt.Sprintf("p2c/forced-pick/conns=%d", n), Budget: vrt.FairBudget(1)}, depth, ops, func(r *vrt.Run, hist []string) vrt.Step {
+			s := newPcSys(r, n)
+			for _, op := range hist {
+				if !s.apply(op) {
+					return vrt.Step{}
+				}
+				if r.Failed() {
+					return vrt.Step{Canon: "failed"}
+				}
+			}
+			return vrt.Step{Canon: s.canon()}
+		})
+	}
+}
+
 // a backend whose calls all fail becomes unhealthy within a bounded number of
 // completions and is then chosen strictly less often than its healthy alternatives,
 // counted over every possible sequence of candidate draws.
